@@ -191,20 +191,34 @@ def run_history(case):
             os.makedirs(os.path.join(d, name))
             write_inputs(os.path.join(d, name), name)
         # a settings file whose crystal system the table does not have: the symmetry check refuses the construction
+        os.makedirs(os.path.join(d, "static"))
+        write_inputs(os.path.join(d, "static"), "A")       # inputs of the run-static operation (never rewritten)
         os.makedirs(os.path.join(d, "refused"))
         synth.write(os.path.join(d, "refused"), dict(DATA["A"], system="cubic"), ds=synth.make(DATA["A"]))
         cwd0 = os.getcwd()
         m0 = module_digest()
         if m0 != gold["A"]["module"]:
             viol.append(V("c14:history:module-state-at-start", "module-level state of this long-lived worker differs from a fresh interpreter's (an earlier history leaked)"))
+        content = {name: name for name in DATA}      # which data set the files in directory <name> currently hold
+        built_from = {}
         for n, op in enumerate(case["ops"]):
             try:
-                if op[0] == "new":
+                if op[0] == "swap":
+                    # the input files of directory X are REWRITTEN IN PLACE (same paths) with another data set
+                    new = "C" if content[op[1]] != "C" else op[1]
+                    write_inputs(os.path.join(d, op[1]), new)
+                    content[op[1]] = new
+                elif op[0] == "new":
                     objs[op[1]] = Calculator(os.path.join(d, op[1], "settings.yaml"))
+                    built_from[op[1]] = content[op[1]]
+                    for p in ("adi_c11", "pb_vp"):
+                        nchecks += 1
+                        if arr_digest(do_read(objs[op[1]], p)) != gold[built_from[op[1]]]["reads"][p]:
+                            viol.append(V(f"c14:history:new-differs:{p}", f"step {n} {op}: {p} of the calculator just built from the files now at that path (data set {content[op[1]]}) differs from a fresh process after history {case['ops'][:n]}"))
                 elif op[0] == "read":
                     dg = arr_digest(do_read(objs[op[1]], op[2]))
                     nchecks += 1
-                    if dg != gold[op[1]]["reads"][op[2]]:
+                    if dg != gold[built_from[op[1]]]["reads"][op[2]]:
                         viol.append(V(f"c14:history:read-differs:{op[2]}", f"step {n} {op}: value differs from a fresh process after history {case['ops'][:n]}"))
                     if reads_seen.setdefault((op[1], op[2]), dg) != dg:
                         viol.append(V(f"c14:history:reread-differs:{op[2]}", f"step {n} {op}: reading twice gives different arrays"))
@@ -215,8 +229,9 @@ def run_history(case):
                         objs[op[1]].write_output()
                     files = dir_digest(out)
                     nchecks += 1
-                    if files != gold[op[1]]["files"]:
-                        diff = sorted(k for k in set(files) | set(gold[op[1]]["files"]) if files.get(k) != gold[op[1]]["files"].get(k))
+                    gfiles = gold[built_from[op[1]]]["files"]
+                    if files != gfiles:
+                        diff = sorted(k for k in set(files) | set(gfiles) if files.get(k) != gfiles.get(k))
                         viol.append(V("c14:history:write-differs", f"step {n} {op}: files {diff[:5]} differ from the golden files after history {case['ops'][:n]}"))
                 elif op[0] == "fill":
                     import pandas
@@ -232,7 +247,7 @@ def run_history(case):
                     # another cij command earlier in the same interpreter (process history)
                     from click.testing import CliRunner
                     from cij.cli.static import main as static_main
-                    args = [os.path.join(d, "A", "input01"), os.path.join(d, "A", "elast.dat"), "-I", "volume", "-n", "21"]
+                    args = [os.path.join(d, "static", "input01"), os.path.join(d, "static", "elast.dat"), "-I", "volume", "-n", "21"]
                     r = CliRunner().invoke(static_main, args)
                     if r.exit_code != 0:
                         viol.append(V("c14:history:raises:static", f"step {n}: run-static failed: {r.exception!r}"))
@@ -278,7 +293,7 @@ def run_history(case):
 def valid_histories(alphabet, depth):
     out = []
 
-    def rec(h, have):
+    def rec(h, have, swapped):
         if h:
             out.append(list(h))
         if len(h) >= depth:
@@ -286,17 +301,20 @@ def valid_histories(alphabet, depth):
         for op in alphabet:
             if op[0] in ("read", "write") and op[1] not in have:
                 continue
-            if op[0] == "new" and op[1] in have:
+            if op[0] == "new" and op[1] in have and op[1] not in swapped:
                 continue
-            rec(h + [op], have | ({op[1]} if op[0] == "new" else set()))
-    rec([], frozenset())
+            if op[0] == "swap" and h and h[-1] == op:
+                continue
+            rec(h + [op], have | ({op[1]} if op[0] == "new" else set()),
+                (swapped | {op[1]}) if op[0] == "swap" else (swapped - {op[1]}) if op[0] == "new" else swapped)
+    rec([], frozenset(), frozenset())
     return out
 
 
 def explore(ctx):
     ctx.rule = ("subprocess space: `cij run` under PYTHONHASHSEED in {0,1,2} (quick; full product for data set A, seed 1 for B and C) / "
                 "{0..15, random} (thorough) x 6 working-directory situations (incl. started elsewhere next to decoy inputs) x 3 data sets (+ interpreter started with -O, process locale C, a 20-column terminal), outputs byte-compared with a golden run; history space: all valid operation sequences of "
-                "depth <=3 (quick) / <=4 (thorough) over {new A/B, read(x, p), write(x), fill, cfg, run-static, cij fill, a construction refused by the symmetry check} on real objects in long-lived workers, "
+                "depth <=3 (quick) / <=4 (thorough) over {new A/B, read(x, p), write(x), fill, cfg, run-static, cij fill, a construction refused by the symmetry check, input files rewritten in place with another data set} on real objects in long-lived workers, "
                 "plus all 35 order-preserving interleavings of A:[new,read,read,write] with B:[new,read,write]; oracles: every write "
                 "byte-identical to the golden files, every read bit-identical to a fresh process and to itself when repeated, working directory unchanged after every operation, module-level "
                 "state digests never change, fill(fill(x)) = fill(x); non-trivial = at least one comparison made")
@@ -322,7 +340,7 @@ def explore(ctx):
             for it in ("-O", "LC_ALL=C", "narrow-terminal")]
     ctx.run(MOD, "run_cli_case", cli, part="subprocess-cli", chunksize=1)
     reads = READS[:3] if ctx.quick else READS[:5]
-    alphabet = [["new", "A"], ["new", "B"]] + [["read", x, p] for x in "AB" for p in reads] + [["write", "A"], ["write", "B"], ["fill"], ["cfg"], ["static"], ["fillcli"], ["refused"]]
+    alphabet = [["new", "A"], ["new", "B"]] + [["read", x, p] for x in "AB" for p in reads] + [["write", "A"], ["write", "B"], ["fill"], ["cfg"], ["static"], ["fillcli"], ["refused"], ["swap", "A"]]
     hist = valid_histories(alphabet, 3 if ctx.quick else 4)
     a_ops = [["new", "A"], ["read", "A", "pb_iso_c11"], ["read", "A", "pb_adi_c11"], ["write", "A"]]
     b_ops = [["new", "B"], ["read", "B", "pb_adi_c11"], ["write", "B"]]
@@ -331,7 +349,10 @@ def explore(ctx):
     extra = [[["new", "A"], ["write", "A"], ["read", "A", "pb_vp"], ["write", "A"], ["read", "A", "pb_vp"], ["write", "A"]],
              [["new", "B"], ["cfg"], ["write", "B"], ["fill"], ["new", "A"], ["write", "A"], ["write", "B"]],
              [["new", "A"], ["new", "B"], ["write", "B"], ["write", "A"], ["read", "B", "pb_c44"], ["read", "B", "pb_c44"]]]
-    cases = [{"ops": h, "golden": {k: gold[k] for k in ("A", "B")}} for h in hist + inter + extra]
+    extra += [[["new", "A"], ["read", "A", "pb_vp"], ["swap", "A"], ["new", "A"], ["write", "A"]],
+              [["new", "A"], ["swap", "A"], ["new", "A"], ["swap", "A"], ["new", "A"], ["read", "A", "pb_adi_c11"]],
+              [["static"], ["swap", "A"], ["new", "A"], ["write", "A"]]]
+    cases = [{"ops": h, "golden": {k: gold[k] for k in ("A", "B", "C")}} for h in hist + inter + extra]
     res = ctx.run(MOD, "run_history", cases, part="histories", chunksize=8, transitions=sum(len(c["ops"]) for c in cases))
     ctx.states = len({r.get("canon") for r in res}) + len(cli)
     ctx.notes["histories"] = len(cases)
